@@ -10,6 +10,7 @@ import (
 	"crypto/sha256"
 	"encoding/hex"
 	"fmt"
+	"os"
 	"sort"
 	"strings"
 	"time"
@@ -137,6 +138,7 @@ type World struct {
 	PropOverride    string
 	armedC15        bool
 	armedC08        bool
+	IsShadow        bool // this World wraps the chain started from an export (followShadow)
 	armedShadow     bool
 	shadow          *shadowChain
 	wallAdvanced    int64
@@ -235,7 +237,7 @@ func NewWorld(t *Trace, mons []Monitor) *World {
 	w.Actors = MakeActors(t.Knobs.NActors, t.Knobs.Kinds)
 	appState, _ := BuildGenesis(&t.Knobs, w.Actors)
 	w.AppState = appState
-	w.Ref = &Node{Idx: 0, Cfg: DefaultRefCfg(), DB: dbm.NewMemDB()}
+	w.Ref = &Node{Idx: 0, Cfg: DefaultRefCfg(), DB: newLeakDB(dbm.NewMemDB())}
 	w.Ref.Cfg.Mempool = t.Knobs.RefMempool
 	w.Ref.AppOpts = appOptsOf(&t.Knobs)
 	w.Ref.Cfg.MinGasPrices = t.Knobs.RefMinGas
@@ -257,7 +259,7 @@ func (w *World) newReplica(i int, cfg NodeCfg) *Node {
 		inner = db
 		n.dir = dir
 	} else {
-		inner = dbm.NewMemDB()
+		inner = newLeakDB(dbm.NewMemDB())
 	}
 	n.Fault = NewFaultDB(inner)
 	n.DB = n.Fault
@@ -472,6 +474,14 @@ func (w *World) execBlock(b *BlockSpec) bool {
 	}
 	w.runNoise(b, -1, height)
 	var cresp abci.ResponseCommit
+	// an iterator left open holds the in-memory database's read lock: Commit would wait forever
+	for _, who := range ref.releaseDangling() {
+		w.Ev("# iterator left open by %s", who)
+		w.Probe("harness.iterator-left-open")
+		if os.Getenv("SIM_LEAKDBG") != "" {
+			fmt.Fprintln(os.Stderr, "ITERATOR-LEFT-OPEN", who)
+		}
+	}
 	if p, _ := safely(func() { cresp = ref.App.Commit() }); p != "" {
 		w.halt("Commit", p)
 		return false
@@ -890,6 +900,7 @@ func (w *World) execOnReplica(n *Node, rec *BlockRec, crash *NodeEvent, ev *Node
 		w.die(n, "end", false, false)
 		return
 	}
+	n.releaseDangling()
 	if crash != nil && (crash.At == "commit.write" || crash.At == "disk.error") && n.Fault != nil {
 		n.Fault.Arm(crash.K, crash.At == "disk.error")
 		p, _ := safely(func() { a.Commit() })
